@@ -34,6 +34,9 @@ SetPool == { SetE(<<>>), SetE(<<Lit(L(1))>>), SetE(<<Lit(L(1)), Lit(L(2))>>), Se
 Ents == {Ua, Ub, Uz, Dd, Gg, Gh, Av, Ae}
 EntPairsSets == {SetE(<<Lit(x)>>) : x \in Ents} \cup {SetE(<<Lit(x), Lit(y)>>) : x \in {Gg, Gh, Ub}, y \in {Gh, Uz, Dd}}
 
+NonEnt == { Lit(<<"bool", TRUE>>), Lit(L(1)), Lit(StrA), RecE(<<>>, <<>>), RecE([n |-> Lit(L(1))], <<"n">>),
+            SetE(<<>>), SetE(<<Lit(Ua)>>), Dec(<<49, 46, 53>>), Get(V("principal"), "rec"), Get(V("principal"), "tags") }
+
 DecPool == { Dec(<<48, 46, 48>>), Dec(<<49, 46, 53>>), Dec(<<49, 46, 53, 48>>), Dec(<<45, 49, 46, 53>>),
              Dec(<<45, 48, 46, 48>>), Dec(<<120>>), Lit(L(1)), Lit(StrA) }
 
@@ -41,7 +44,7 @@ Coords ==
   {<<"un", op>> : op \in {"not", "neg", "isEmpty"}}
   \cup {<<"bin", BinOps[i]>> : i \in 1..Len(BinOps)}
   \cup {<<"andor", op>> : op \in {"and", "or"}}
-  \cup {<<"has">>, <<"get">>, <<"is">>, <<"if">>, <<"like">>, <<"likeNonStr">>, <<"hier">>, <<"setrec">>}
+  \cup {<<"has">>, <<"get">>, <<"is">>, <<"if">>, <<"like">>, <<"likeNonStr">>, <<"hier">>, <<"hierMixed">>, <<"setrec">>}
   \cup {<<"sets", op>> : op \in {"eq", "contains", "containsAll", "containsAny"}}
   \cup {<<"alg", s>> : s \in 1..6}
   \cup {<<"dec", f>> : f \in {"lessThan", "lessThanOrEqual", "greaterThan", "greaterThanOrEqual"}}
@@ -58,6 +61,10 @@ CasesOf(k) ==
     [] k[1] = "likeNonStr" -> {<<"like", x, <<Star>>>> : x \in LeafSet}
     [] k[1] = "hier" -> {Bin("in", Lit(x), Lit(y)) : x \in Ents, y \in Ents}
                         \cup {Bin("in", Lit(x), s) : x \in Ents, s \in EntPairsSets}
+    \* `in` type-tests the whole right operand, wherever the offending element sits and whatever it is
+    [] k[1] = "hierMixed" -> {Bin("in", Lit(x), SetE(<<Lit(y), z>>)) : x \in {Ua, Uz, Gg}, y \in {Ua, Uz, Gg, Gh}, z \in NonEnt}
+                             \cup {Bin("in", Lit(x), SetE(<<z, Lit(y)>>)) : x \in {Ua, Uz, Gg}, y \in {Ua, Uz, Gg, Gh}, z \in NonEnt}
+                             \cup {Bin("in", Lit(x), SetE(<<Lit(y), z, Lit(w)>>)) : x \in {Ua, Gg}, y \in {Ua, Gh}, w \in {Gg, Ub}, z \in NonEnt}
     [] k[1] = "setrec" -> {SetE(<<x, y>>) : x \in Small, y \in AtomSet}
                           \cup {RecE([a |-> x, b |-> y], <<"a", "b">>) : x \in AtomSet, y \in AtomSet}
                           \cup {Get(RecE([a |-> x, b |-> y], <<"a", "b">>), "a") : x \in Small, y \in AtomSet}
